@@ -3,7 +3,7 @@ from __future__ import annotations
 import enum
 import inspect
 from dataclasses import Field
-from datetime import date, datetime, time
+from datetime import date, datetime
 from operator import itemgetter
 from pathlib import Path
 from typing import Any, ClassVar, Type, TypeVar, cast
@@ -28,7 +28,6 @@ class OrjsonDialect(Dialect):
     serialization_strategy = {  # noqa: RUF012
         datetime: {"serialize": pass_through},
         date: {"serialize": pass_through},
-        time: {"serialize": pass_through},
         UUID: {"serialize": pass_through},
     }
 
